@@ -56,9 +56,9 @@ class WindowTable:
 _prepared = {}
 
 
-def prepare(cal_id, lo=None, hi=None):
+def prepare(cal_id, lo=None, hi=None, tabulate_months=False):
     """Returns (calendar, calculator, lo, hi): the year range the lemma quantifies over (whole range unless windowed)."""
-    key = (cal_id, lo, hi)
+    key = (cal_id, lo, hi, tabulate_months)
     if key in _prepared:
         return _prepared[key]
     cal = CalendarSystem.for_id(cal_id)
@@ -80,6 +80,48 @@ def prepare(cal_id, lo=None, hi=None):
         v = getattr(calc, k)
         if isinstance(v, list) and len(v) > 40:
             setattr(calc, k, tuple(v))
+    if cal_id == "Um Al Qura":
+        # class-level dict tables keyed 0..184 -> tuples: a symbolic key into a dict forks per entry, a tuple index is an ITE chain
+        for nm in ("_UmAlQuraYearMonthDayCalculator__MONTH_LENGTHS", "_UmAlQuraYearMonthDayCalculator__YEAR_LENGTHS",
+                   "_UmAlQuraYearMonthDayCalculator__YEAR_START_DAYS"):
+            d = getattr(UQ, nm)
+            if isinstance(d, dict):
+                setattr(UQ, nm, tuple(d[i] for i in range(len(d))))
+        stubs.STUBS_IN_FORCE.append("tables:Um Al Qura month/year tables re-exposed as tuples (same contents, built by the real static initialiser)")
+        if tabulate_months:
+            ulo, uhi = (max(ymin, lo - 1), min(ymax, hi + 1)) if windowed else (ymin, ymax)
+            real_dim, real_dsm = UQ._get_days_in_month, UQ._get_days_from_start_of_year_to_start_of_month
+            dimT = {m: WindowTable(lambda y, m=m: real_dim(calc, y, m), ulo, uhi) for m in range(1, 13)}
+            dsmT = {m: WindowTable(lambda y, m=m: real_dsm(calc, y, m), ulo, uhi) for m in range(1, 13)}
+            if windowed:
+                r_diy, r_start, r_leap = UQ._get_days_in_year, UQ._get_start_of_year_in_days, UQ._is_leap_year
+                t_diy = WindowTable(lambda y: r_diy(calc, y), ulo - 1, uhi + 1)
+                t_start = WindowTable(lambda y: r_start(calc, y), ulo - 1, uhi + 1)
+                t_leap = WindowTable(lambda y: int(r_leap(calc, y)), ulo - 1, uhi + 1)
+                register_patch(r_diy, lambda self, year: t_diy(year))
+                register_patch(r_start, lambda self, year: t_start(year))
+                register_patch(r_leap, lambda self, year: t_leap(year) == 1)
+
+            def _m(month):
+                from crosshair.core import realize
+                m = realize(month)          # forks over the 12 months
+                if not 1 <= m <= 12:
+                    raise KeyError(m)
+                return m
+            register_patch(real_dim, lambda self, year, month: dimT[_m(month)](year))
+            register_patch(real_dsm, lambda self, year, month: dsmT[_m(month)](year))
+            stubs.STUBS_IN_FORCE.append("tabulated:Um Al Qura days-in-month and month starts for every (year, month) from the real code "
+                                        "(their consistency with the year tables is C01.monthsum/split on the real functions)")
+    if cal_id.startswith("Hijri") and windowed:
+        tlo, thi = max(ymin - 1, lo - 6), min(ymax + 1, hi + 3)
+        real_leap = type(calc)._is_leap_year
+        real_start = type(calc)._calculate_start_of_year_days
+        tleap = WindowTable(lambda y: int(real_leap(calc, y)), tlo, thi)
+        tstart = WindowTable(lambda y: real_start(calc, y), tlo, thi)
+        register_patch(real_leap, lambda self, year: tleap(year) == 1)
+        register_patch(real_start, lambda self, year: tstart(year))
+        stubs.STUBS_IN_FORCE.append(f"tabulated:{cal_id} leap flags and year starts for years {tlo}..{thi} from the real code "
+                                    "(the closed forms are checked over the full range by C01.yearlen/getyear)")
     if cal_id.startswith("Hebrew") or cal_id == "Badi" or cal_id.startswith("Persian"):
         if not windowed:
             raise ValueError(cal_id + " needs a year window")
